@@ -474,6 +474,86 @@ def primality_tables(check, repo, thorough=False):
     check.count("primality_rows", total)
 
 
+def legacy_primality_rows(check, repo, thorough=False):
+    """Crypto.Util.number._rabinMillerTest / isPrime (used by getPrime, getStrongPrime and by callers of the legacy
+    API): every n below a bound with chosen base sequences (also a repeated base: the `tested` list), compared with
+    the checker's Miller-Rabin for those bases, and isPrime on all n below the bound and the pseudoprime families."""
+    from ..par import pmap
+    NM = "Crypto.Util.number"
+    mod = repo.module(NM)
+    f_mr, f_ip = repo.func(mod, "_rabinMillerTest"), repo.func(mod, "isPrime")
+    draws = [n for n in ast.walk(f_mr) if isinstance(n, ast.Call) and norm(n.func) == "getRandomRange"]
+    if len(draws) < 1:
+        raise AnalysisError("anchor vanished: base selection of _rabinMillerTest")
+    keys = set(norm(d) for d in draws)
+    N = 4000 if thorough else 1300
+    lit = [n for n in mod.tree.body if isinstance(n, ast.Assign) and norm(n.targets[0]) == "sieve_base"]
+    if len(lit) != 1:
+        raise AnalysisError("anchor vanished: sieve_base")
+    sieve = ast.literal_eval(lit[0].value)
+
+    def run(job):
+        fn, args, bases = job
+        it = Interp(repo, max_depth=6)
+        it.unroll_limit = 12000
+        it.for_limit = 12000
+        it.assert_raises = True
+        drawn = []
+
+        def draw(i, st2):
+            b = bases[min(len(drawn), len(bases) - 1)]
+            drawn.append(b)
+            return b
+        it.inject = dict((k, draw) for k in keys)
+        it.inject["_fastmath"] = None
+        it.inject["sieve_base"] = sieve
+        res = it.run(mod, fn, args, bind_defaults=True)
+        if res.rejected():
+            return ("raises",) + tuple(sorted(set(res.raise_classes())))
+        rets = res.returns()
+        if len(rets) != 1 or res.raises():
+            return ("undecided", len(rets), tuple(res.raise_classes()))
+        return rets[0].value
+    jobs = []
+    for n in list(range(-1, 8)) + list(range(9, N // 2, 2)) + [x for x in SPSP2 + CARMICHAEL if x < 70000]:
+        if n < 7:
+            jobs.append((n, (2, 3, 4, 5), 1))
+            continue
+        for bases in ((2,), (3,), (n - 1,), (2, 3), (2, 2, 3), (n - 2, 7, 7, 2)):
+            rounds = len(set(bases))
+            jobs.append((n, bases, rounds))
+    got = pmap(run, [(f_mr, {"n": n, "rounds": r, "randfunc": UNK}, b) for n, b, r in jobs])
+    wrong, primes_failed = [], []
+    for (n, bases, rounds), g in zip(jobs, got):
+        if n < 3 or n % 2 == 0:
+            want = (n == 2)
+        else:
+            distinct = []
+            for b in bases:
+                if b not in distinct:
+                    distinct.append(b)
+            want = 1 if ref_mr(n, distinct[:min(rounds, n - 2)]) else 0
+        if g != want:
+            wrong.append("_rabinMillerTest(%d, %d rounds, bases %s) = %r, Miller-Rabin for those bases gives %r" % (n, rounds, list(bases), g, want))
+    check.ob("K-pw", "K-pw|primality.legacy.mr", not wrong, mod.path, f_mr.lineno,
+             extracted=("%d of %d rows differ: " % (len(wrong), len(jobs)) + "; ".join(wrong[:4])) if wrong else
+             "%d (n, bases) rows: composite iff one of the distinct drawn bases is a witness; n < 3 and even n by the special cases" % len(jobs),
+             expected="_rabinMillerTest is the Miller-Rabin test for the drawn bases (a repeated base is drawn again); a prime is never declared composite")
+    cands = sorted(set(list(range(-2, N)) + LUCAS_PSP + CARMICHAEL + SPSP2 + [1009 * 1013, 65537, 65537 * 3, 104729, 104729 * 104723, (1 << 61) - 1, ((1 << 31) - 1) * ((1 << 19) - 1)]))
+    got = pmap(run, [(f_ip, {"N": n, "randfunc": UNK}, (2, 3, 5, 7, 11, 13, 17, 19, 23, 29, 31, 37)) for n in cands])
+    wrong = []
+    known = {(1 << 61) - 1: True}
+    for n, g in zip(cands, got):
+        isp = known[n] if n in known else _is_prime(n) if n < 10 ** 7 else False
+        if g is not isp:
+            wrong.append("isPrime(%d) = %r but %d is %s" % (n, g, n, "prime" if isp else "not prime"))
+    check.ob("K-pw", "K-pw|primality.legacy.isPrime", not wrong, mod.path, f_ip.lineno,
+             extracted=("%d of %d candidates differ: " % (len(wrong), len(cands)) + "; ".join(wrong[:4])) if wrong else
+             "%d candidates (all from -2 to %d, pseudoprime families, products of two primes beyond the sieve): True exactly for the primes, a bool" % (len(cands), N),
+             expected="isPrime(N) is True iff N is prime (bases 2, 3, 5, ... drawn: no composite of the table is a strong pseudoprime to all of them)")
+    check.count("legacy_primality_rows", len(jobs) + len(cands))
+
+
 def run(check, ctx):
     repo = ctx.repo
     sibling_methods(check, repo)
@@ -482,3 +562,4 @@ def run(check, ctx):
     primality(check, repo)
     number_rows(check, repo)
     primality_tables(check, repo, thorough=ctx.tier == "thorough")
+    legacy_primality_rows(check, repo, thorough=ctx.tier == "thorough")
